@@ -22,7 +22,7 @@ not recognise the code.
 import ast
 
 from ..core import AnalysisError
-from ..strdom import NONE, Ctor, EnumMember, Ev, ListV, Obj, Sym, Term, TupV, Undecided, _Raise, show
+from ..strdom import NONE, ClassRef, Ctor, EnumMember, Ev, ListV, Obj, Sym, Term, TupV, Undecided, _Raise, show
 
 T = "commonroad/scenario/traffic_light.py"
 
@@ -48,10 +48,10 @@ def _val(v, env):
             return -a[0]
         if op == "*":
             return a[0] * a[1]
-        if op == "%":
-            return a[0] % a[1]
-        if op == "//":
-            return a[0] // a[1]
+        if op in ("%", "//"):
+            if a[1] == 0:
+                raise _Raise(None, "integer division or modulo by zero", "ZeroDivisionError")
+            return a[0] % a[1] if op == "%" else a[0] // a[1]
         if op in ("min", "max"):
             return (min if op == "min" else max)(a)
         if op in ("abs", "float", "int"):
@@ -200,81 +200,152 @@ DURATIONS = (3, 1, 4, 2)
 OFFSETS = (0, 2, 13)
 
 
+class CycleWorld:
+    """one cycle object built by the constructor of the class from four elements with atom durations and an atom
+    offset; answers queries through `target` (the cycle itself, or a traffic light holding it)"""
+
+    def __init__(self, repo, colours, off):
+        self.repo = repo
+        m = self.m = repo.mod(T)
+        c = self.c = m.classes.get("TrafficLightCycle")
+        el = m.classes.get("TrafficLightCycleElement")
+        st = self.st = m.classes.get("TrafficLightState")
+        if c is None or el is None or st is None:
+            raise AnalysisError("TrafficLightCycle / TrafficLightCycleElement / TrafficLightState missing")
+        members = dict(st.enum_members())
+        self.colours, self.off = colours, off
+        env = self.env = {"time_offset": off}
+        self.elems = []
+        for i, (col, d) in enumerate(zip(colours, DURATIONS)):
+            if col not in members:
+                raise AnalysisError("TrafficLightState.%s missing" % col)
+            ds = Sym("duration %d" % (i + 1), "int")
+            env[ds.name] = d
+            self.elems.append(Obj(el, {"_state": EnumMember(st, col, members[col]), "_duration": ds}, label="cycle element %d" % (i + 1)))
+        ev = self.ev = Ev(repo)
+        ev.pure_modules = {"math", "warnings"}
+        ev.assume_valid = True
+        ev.instantiate = {"TrafficLightCycle", "TrafficLight"}
+        numpy_models(ev, env)
+
+        def oracle(kind, a, b, env=env):
+            if kind not in ("Lt", "LtE", "Gt", "GtE", "Eq", "NotEq"):
+                return None
+            f = {"Lt": lambda x, y: x < y, "LtE": lambda x, y: x <= y, "Gt": lambda x, y: x > y, "GtE": lambda x, y: x >= y, "Eq": lambda x, y: x == y, "NotEq": lambda x, y: x != y}[kind]
+            try:
+                if isinstance(a, ListV) or isinstance(b, ListV):
+                    xs = seq(a) if isinstance(a, ListV) else None
+                    ys = seq(b) if isinstance(b, ListV) else None
+                    if xs is not None and ys is not None and len(xs) != len(ys):
+                        return None
+                    k = len(xs if xs is not None else ys)
+                    return arr([bool(f(_val(xs[i] if xs is not None else a, env), _val(ys[i] if ys is not None else b, env))) for i in range(k)])
+                return bool(f(_val(a, env), _val(b, env)))
+            except Undecided:
+                return None
+
+        ev.oracle = oracle
+        try:
+            self.cyc = ev.apply(ClassRef(c), [], {"cycle_elements": ListV(self.elems), "time_offset": Sym("time_offset", "int"), "active": True}, c.node, m)
+        except _Raise as x:
+            raise Undecided("TrafficLightCycle(..) raises %s" % x.what)
+        if not isinstance(self.cyc, Obj):
+            raise Undecided("TrafficLightCycle(..) gives %s" % show(self.cyc))
+        self.wrong = []
+        self.asked = 0
+
+    def ask(self, target, owner, fn, series, again, off_now, order, what=""):
+        """queries `target`; `order`: (colour, duration) of the elements as the cycle holds them now"""
+        total = sum(DURATIONS)
+        for n_q, t in enumerate(series + again):
+            self.asked += 1
+            ts = Sym("time_step", "int")
+            self.env["time_step"] = t
+            tmod = off_now + ((t - off_now) % total)
+            acc, want = off_now, None
+            for col, d in order:
+                if acc <= tmod < acc + d:
+                    want = col
+                acc += d
+            when = "%st=%d%s" % (what, t, " asked again" if n_q >= len(series) else "")
+            try:
+                r = self.ev.call_fn(self.ev.bind(fn, owner, target), [ts], {}, fn)
+            except _Raise as x:
+                self.wrong.append((when, "raises %s" % x.what, want))
+                continue
+            got = r.name if isinstance(r, EnumMember) else None
+            if got is None:
+                if r is NONE or isinstance(r, (Obj, ListV, int, float, Sym, Term)):
+                    self.wrong.append((when, "returns %s" % show(r), want))
+                    continue
+                raise Undecided("the result is %s" % show(r))
+            if got != want:
+                self.wrong.append((when, got, want))
+
+
 def cases_rule(repo, res, RULE="CYC-CASES"):
     """-> number of cases decided; raises Undecided when the evaluator cannot follow the code (the caller decides what
     that means)"""
     m = repo.mod(T)
     c = m.classes.get("TrafficLightCycle")
-    el = m.classes.get("TrafficLightCycleElement")
-    st = m.classes.get("TrafficLightState")
-    if c is None or el is None or st is None:
-        raise AnalysisError("TrafficLightCycle / TrafficLightCycleElement / TrafficLightState missing")
-    fn = c.methods.get("get_state_at_time_step")
+    fn = c.methods.get("get_state_at_time_step") if c is not None else None
     if fn is None:
         raise AnalysisError("TrafficLightCycle.get_state_at_time_step missing")
-    members = dict(st.enum_members())
     qn = "TrafficLightCycle.get_state_at_time_step"
     total = sum(DURATIONS)
     n = 0
     for clabel, colours in COLOURS:
         for off in OFFSETS:
             label = "%s; offset %d" % (clabel, off)
-            wrong = []
-            for t in range(0, off + 2 * total + 2):
-                env = {"time_step": t, "time_offset": off}
-                syms = {"time_step": Sym("time_step", "int"), "time_offset": Sym("time_offset", "int")}
-                elems = []
-                for i, (col, d) in enumerate(zip(colours, DURATIONS)):
-                    if col not in members:
-                        raise AnalysisError("TrafficLightState.%s missing" % col)
-                    ds = Sym("duration %d" % (i + 1), "int")
-                    env[ds.name] = d
-                    state = EnumMember(st, col, members[col])
-                    elems.append(Obj(el, {"_state": state, "_duration": ds}, label="cycle element %d" % (i + 1)))
-                cyc = Obj(c, {"_cycle_elements": ListV(elems), "_time_offset": syms["time_offset"], "_active": True}, label="cycle")
-                ev = Ev(repo)
-                ev.pure_modules = {"math", "warnings"}
-                ev.assume_valid = True
-                numpy_models(ev, env)
-
-                def oracle(kind, a, b, env=env):
-                    if kind not in ("Lt", "LtE", "Gt", "GtE", "Eq", "NotEq"):
-                        return None
-                    f = {"Lt": lambda x, y: x < y, "LtE": lambda x, y: x <= y, "Gt": lambda x, y: x > y, "GtE": lambda x, y: x >= y, "Eq": lambda x, y: x == y, "NotEq": lambda x, y: x != y}[kind]
-                    try:
-                        if isinstance(a, ListV) or isinstance(b, ListV):
-                            xs = seq(a) if isinstance(a, ListV) else None
-                            ys = seq(b) if isinstance(b, ListV) else None
-                            if xs is not None and ys is not None and len(xs) != len(ys):
-                                return None
-                            k = len(xs if xs is not None else ys)
-                            return arr([bool(f(_val(xs[i] if xs is not None else a, env), _val(ys[i] if ys is not None else b, env))) for i in range(k)])
-                        return bool(f(_val(a, env), _val(b, env)))
-                    except Undecided:
-                        return None
-
-                ev.oracle = oracle
-                # expected
-                tmod = off + ((t - off) % total)
-                acc, want = off, None
-                for col, d in zip(colours, DURATIONS):
-                    if acc <= tmod < acc + d:
-                        want = col
-                    acc += d
-                try:
-                    r = ev.call_fn(ev.bind(fn, c, cyc), [syms["time_step"]], {}, fn)
-                except _Raise as x:
-                    wrong.append((t, "raises %s" % x.what, want))
-                    continue
-                got = r.name if isinstance(r, EnumMember) else None
-                if got is None:
-                    if r is NONE or isinstance(r, (Obj, ListV, int, float, Sym, Term)):
-                        wrong.append((t, "returns %s" % show(r), want))
-                        continue
-                    raise Undecided("the result is %s" % show(r))
-                if got != want:
-                    wrong.append((t, got, want))
+            # one cycle object answers the whole series of queries, so that a query which changes what later queries
+            # see is noticed
+            w = CycleWorld(repo, colours, off)
+            series = list(range(0, off + 2 * total + 2))
+            w.ask(w.cyc, c, fn, series, series[::3], off, list(zip(colours, DURATIONS)))
+            # the definition changes through the setters of the cycle: the answers follow the new definition
+            scope = {"cyc": w.cyc}
+            try:
+                off2 = Sym("time_offset assigned later", "int")
+                w.env[off2.name] = off + 3
+                w.ev.assign(ast.parse("cyc.time_offset", mode="eval").body, off2, scope, m)
+                later = list(range(off, off + 3 + total + 2))
+                w.ask(w.cyc, c, fn, later, [], off + 3, list(zip(colours, DURATIONS)), "after time_offset = offset + 3: ")
+                w.ev.assign(ast.parse("cyc.cycle_elements", mode="eval").body, ListV(w.elems[1:] + w.elems[:1]), scope, m)
+                order = list(zip(colours[1:] + colours[:1], DURATIONS[1:] + DURATIONS[:1]))
+                w.ask(w.cyc, c, fn, later, [], off + 3, order, "after cycle_elements = the elements turned by one: ")
+            except _Raise as x:
+                w.wrong.append(("assigning through the setters", "raises %s" % x.what, "nothing to raise"))
             n += 1
-            text = "; ".join("t=%d: %s, the cycle says %s" % w for w in wrong[:3])
-            res.check(RULE, "%s [%s; durations %s; t = 0..%d]: the state of the window holding off + ((t - off) mod T)" % (qn, label, list(DURATIONS), off + 2 * total + 1), not wrong, m, fn, "%s [%s]: %s" % (qn, label, text), "the reported state is not the one the cycle definition gives for that time step (%d of %d time steps differ)" % (len(wrong), off + 2 * total + 2), qualname=qn)
+            text = "; ".join("%s: %s, the cycle says %s" % x for x in w.wrong[:3])
+            res.check(RULE, "%s [%s; durations %s; t = 0..%d, every third asked again; then after assigning time_offset and cycle_elements]: the state of the window holding off + ((t - off) mod T)" % (qn, label, list(DURATIONS), off + 2 * total + 1), not w.wrong, m, fn, "%s [%s]: %s" % (qn, label, text), "the reported state is not the one the cycle definition gives for that time step (%d of %d queries differ)" % (len(w.wrong), w.asked), qualname=qn)
+    return n
+
+
+def light_rule(repo, res, RULE="CYC-DELEGATE"):
+    """TrafficLight.get_state_at_time_step, evaluated: a light built by its constructor around the cycle (active and
+    not active) answers what the cycle definition says"""
+    m = repo.mod(T)
+    tl = m.classes.get("TrafficLight")
+    fn = tl.methods.get("get_state_at_time_step") if tl is not None else None
+    if fn is None:
+        raise AnalysisError("TrafficLight.get_state_at_time_step missing")
+    qn = "TrafficLight.get_state_at_time_step"
+    total = sum(DURATIONS)
+    n = 0
+    for active in (True, False):
+        for off in (0, 5):
+            clabel, colours = COLOURS[1]
+            w = CycleWorld(repo, colours, off)
+            try:
+                light = w.ev.apply(ClassRef(tl), [], {"traffic_light_id": 7, "position": Obj(None, {}, closed=True, label="position"), "traffic_light_cycle": w.cyc, "active": active}, tl.node, m)
+            except _Raise as x:
+                raise Undecided("TrafficLight(..) raises %s" % x.what)
+            if not isinstance(light, Obj):
+                raise Undecided("TrafficLight(..) gives %s" % show(light))
+            series = list(range(0, off + 2 * total + 2))
+            w.ask(light, tl, fn, series, series[::4], off, list(zip(colours, DURATIONS)))
+            n += 1
+            label = "light constructed with active=%s; offset %d" % (active, off)
+            text = "; ".join("%s: %s, the cycle says %s" % x for x in w.wrong[:3])
+            res.check(RULE, "%s [%s; t = 0..%d]: the state its cycle defines for that time step" % (qn, label, off + 2 * total + 1), not w.wrong, m, fn, "%s [%s]: %s" % (qn, label, text), "the traffic light does not report what its cycle defines for the queried time step (%d of %d queries differ)" % (len(w.wrong), w.asked), qualname=qn)
     return n
